@@ -184,15 +184,21 @@ func checkErrorPreservation(p *Prog, res *Result, rule string, inScope func(*ssa
 			handedOver := false
 			if refs := e.Referrers(); refs != nil {
 				for _, ref := range *refs {
-					if st, ok := ref.(*ssa.Store); ok {
-						if _, isFV := st.Addr.(*ssa.FreeVar); isFV && st.Val == e {
+					if st, ok := ref.(*ssa.Store); ok && st.Val == e {
+						if _, isFV := st.Addr.(*ssa.FreeVar); isFV {
 							handedOver = true
+						}
+						// the same idiom with a named type: the attempt object records the last error in a field
+						if fa, ok := st.Addr.(*ssa.FieldAddr); ok {
+							if prm, ok := resolve(fa.X).(*ssa.Parameter); ok && prm.Parent() == f && paramIndex(prm) == 0 && f.Signature.Recv() != nil {
+								handedOver = true
+							}
 						}
 					}
 				}
 			}
 			if handedOver {
-				res.ok(rule, construct, p.pos(c.Pos()), "recorded in a variable of the enclosing function")
+				res.ok(rule, construct, p.pos(c.Pos()), "recorded in a variable of the enclosing function / a field of the receiver")
 				continue
 			}
 			losses := errLosses(p, f, c, e)
